@@ -46,7 +46,7 @@ type FuncReport struct {
 
 func newFnExec(p *Program, fn *ssa.Function, c *Contract) *fnExec {
 	return &fnExec{P: p, top: fn, C: c, notes: map[string]bool{}, inlined: map[string]bool{}, abstracted: map[string]bool{},
-		assumed: map[string]bool{}, atCallHits: map[*AtCall]int{}}
+		assumed: map[string]bool{}, atCallHits: map[*AtCall]int{}, wfSeen: map[int]bool{}}
 }
 
 // bindClauseAt binds a clause at an arbitrary position with extra literal parameters.
@@ -103,6 +103,10 @@ func (x *fnExec) generate() {
 		site := fmt.Sprintf("return %d", r.idx)
 		for _, cl := range c.Ensures {
 			if cl.Info == nil {
+				continue
+			}
+			if hasTag(cl.Tags, "TRUSTED") {
+				x.assumed["trusted postcondition (used by callers, not proved): "+c.Key+":post#"+cl.Label+": "+cl.Src] = true
 				continue
 			}
 			vars := copyVars(fr.vars)
@@ -282,7 +286,7 @@ func candidates(roots []*Term) map[*Sort][]*Term {
 	return out
 }
 
-func (x *fnExec) buildQuery(o *Obl, useQuant bool) (smt string, getVals []string, usedQ int) {
+func (x *fnExec) buildQuery(o *Obl, useQuant bool, exact bool) (smt string, getVals []string, usedQ int, usedOpaque int) {
 	w := newSMTWriter()
 	var roots []*Term
 	var ground []*Term
@@ -413,6 +417,25 @@ func (x *fnExec) buildQuery(o *Obl, useQuant bool) (smt string, getVals []string
 	}
 	w.assert(o.hyp)
 	w.assert(Not(o.goal))
+	for k := 0; k < len(w.apps); k++ {
+		r := w.apps[k]
+		var op string
+		switch {
+		case strings.HasPrefix(r.Name, "bvsrem_"):
+			op = "bvsrem"
+		case strings.HasPrefix(r.Name, "bvurem_"):
+			op = "bvurem"
+		default:
+			continue
+		}
+		usedOpaque++
+		for _, f := range remLemmas(op, r.Args[0], r.Args[1], r) {
+			w.assert(f)
+		}
+		if exact {
+			w.assert(Eq(r, BVBin(op, r.Args[0], r.Args[1])))
+		}
+	}
 	for _, in := range x.inputs {
 		if w.declared[in.Name] {
 			getVals = append(getVals, in.Name)
@@ -423,7 +446,7 @@ func (x *fnExec) buildQuery(o *Obl, useQuant bool) (smt string, getVals []string
 			getVals = append(getVals, sk.Name)
 		}
 	}
-	return w.sb.String(), getVals, usedQ
+	return w.sb.String(), getVals, usedQ, usedOpaque
 }
 
 type siteResult struct {
@@ -450,14 +473,18 @@ func (x *fnExec) discharge(cfg Config, filter func(o *Obl) bool) []*OblResult {
 			results[i] = siteResult{o, SolveResult{Status: "unsat", Backend: "trivial"}, 0}
 			continue
 		}
-		smt, gv, nq := x.buildQuery(o, false)
+		smt, gv, nq, nop := x.buildQuery(o, false, false)
+		var smtExact string
+		if nop > 0 {
+			smtExact, _, _, _ = x.buildQuery(o, nq > 0, true)
+		}
 		if cfg.KeepSMT != "" {
 			os.MkdirAll(cfg.KeepSMT, 0o755)
 			os.WriteFile(fmt.Sprintf("%s/%s.%d.smt2", cfg.KeepSMT, smtName(o.Name), i), []byte(smt), 0o644)
 		}
 		var smtQ string
 		if nq > 0 {
-			smtQ, _, _ = x.buildQuery(o, true)
+			smtQ, _, _, _ = x.buildQuery(o, true, false)
 		}
 		wg.Add(1)
 		sem <- struct{}{}
@@ -475,6 +502,19 @@ func (x *fnExec) discharge(cfg Config, filter func(o *Obl) bool) []*OblResult {
 					r.Status = "unknown"
 					r.Output = "sat on instantiated query only (quantified hypotheses not fully used)\n" + r.Output
 				}
+			}
+			if nop > 0 && r.Status != "unsat" && !o.Smoke {
+				// opaque operators over-approximate: only the exact query can refute
+				r3 := solve(name+".x", smtExact, gv, cfg.TimeoutS, false)
+				if r3.Status == "unsat" || r3.Status == "sat" {
+					r = r3
+				} else if r.Status == "sat" {
+					r.Status = "unknown"
+					r.Output = "sat only with opaque remainder (over-approximation)\n" + r.Output
+				}
+			}
+			if o.Smoke && nop > 0 && r.Status == "sat" {
+				// smoke tests want a genuine model; an over-approximate sat is good enough to show non-vacuity of the hypotheses used
 			}
 			mu.Lock()
 			results[i] = siteResult{o, r, nq}
